@@ -15,7 +15,7 @@ CALLS = [(r'^interpolate\|', 'nv_interpolate({&0}, {&1}, {2})'), (r'^clamp\|cons
          (r'^ctor\|nano::lsearch_step_t\|void \(const nano::solver_state_t &', 'nv_lstep_make({&0}, {&1}, {2})'),
          (r'^operator=\|.*lsearch_step_t', '({0} = {1})')]
 MEMBERS = [(r'^valid\|nano::solver_state_t', 'nv_state_valid'), (r'^fx\|nano::solver_state_t', 'nv_state_fx'),
-           (r'^dg\|nano::solver_state_t', 'nv_state_dg'), (r'^has_descent\|nano::solver_state_t', 'nv_state_has_descent'),
+           (r'^dg\|nano::solver_state_t', 'nv_state_dg'), (r'^has_descent\|nano::solver_state_t', 'state_has_descent'),
            (r'^has_armijo\|nano::solver_state_t', 'nv_has_armijo'), (r'^has_wolfe\|nano::solver_state_t', 'nv_has_wolfe'),
            (r'^has_strong_wolfe\|nano::solver_state_t', 'nv_has_strong_wolfe'),
            (r'^(info|warn|error)\|nano::logger_t', '@drop'),
@@ -32,22 +32,69 @@ def build(tier):
     lm = Fn('lemarechal_do_get', 'src/lsearchk/lemarechal.cpp', 'do_get', flt='lsearchk_lemarechal_t::do_get', **COMMON)
     fz = lambda: Fn('fletcher_zoom', 'src/lsearchk/fletcher.cpp', 'zoom', flt='lsearchk_fletcher_t::zoom', **COMMON)
     fd = Fn('fletcher_do_get', 'src/lsearchk/fletcher.cpp', 'do_get', flt='lsearchk_fletcher_t::do_get', **COMMON)
+    # solver_state_t::has_descent is the real inline body (include/nano/solver/state.h), called without a contract: a change of
+    # the guard or of has_descent itself (e.g. one that lets a NaN slope through) flows into lsearchk_get / fletcher_do_get
+    hd = lambda: Fn('state_has_descent', 'src/solver/state.cpp', 'has_descent', flt='solver_state_t::has_', self_struct='struct nv_state',
+                    types=TYPES, members=[(r'^dg\|nano::solver_state_t', 'nv_state_dg')])
     get = Fn('lsearchk_get', 'src/lsearchk.cpp', 'get', flt='lsearchk_t::get', **COMMON)
+    mt_calls = [(r'^dcstep\|', 'mt_dcstep'), (r'^stpmax\|', 'nv_stpmax()'),
+                (r'^cubic\|', 'nv_cubic({&0}, {&1})'), (r'^quadratic\|', 'nv_quadratic({&0}, {&1})'), (r'^secant\|', 'nv_secant({&0}, {&1})'),
+                (r'^ctor\|nano::lsearch_step_t\|void \((const )?(double|nano::scalar_t)', 'nv_lstep_make3({0}, {1}, {2})')]
+    mt_common = dict(COMMON, calls=mt_calls + CALLS)
+    dc = Fn('mt_dcstep', 'src/lsearchk/morethuente.cpp', 'dcstep', flt='dcstep', **dict(mt_common, self_struct=None))
+    mt = Fn('morethuente_do_get', 'src/lsearchk/morethuente.cpp', 'do_get', flt='lsearchk_morethuente_t::do_get', **mt_common)
     targets = [
-        Target('lsearchk_get', [get, upd()], H, replace=['lsearchk_update', 'lsearchk_do_get']),
+        Target('morethuente_do_get', [mt, dc, upd()], H, replace=['lsearchk_update']),
+        Target('lsearchk_get', [get, upd(), hd()], H, replace=['lsearchk_update', 'lsearchk_do_get'], cbmc_flags=['--sat-solver', 'cadical']),
         Target('lsearchk_update', [upd()], H),
+        Target('state_has_descent', [hd()], H),
         Target('backtrack_do_get', [bt, upd()], H, replace=['lsearchk_update']),
         Target('lemarechal_do_get', [lm, upd()], H, replace=['lsearchk_update']),
         Target('fletcher_zoom', [fz(), upd()], H, replace=['lsearchk_update']),
-        Target('fletcher_do_get', [fd, fz(), upd()], H, replace=['lsearchk_update', 'fletcher_zoom']),
+        Target('fletcher_do_get', [fd, fz(), upd(), hd()], H, replace=['lsearchk_update', 'fletcher_zoom']),
     ]
+    import cgd
+    targets += cgd.targets(COMMON, upd, hd)
+    ls_common = dict(COMMON, self_struct=None, calls=[(r'^cubic\|', 'nv_cubic({&0}, {&1})'), (r'^quadratic\|', 'nv_quadratic({&0}, {&1})'),
+                                                       (r'^bisection\|', 'lstep_bisection')] + CALLS)
+    bis = lambda: Fn('lstep_bisection', 'src/solver/lstep.cpp', 'bisection', flt='lsearch_step_t::', **ls_common)
+    itp = Fn('lstep_interpolate', 'src/solver/lstep.cpp', 'interpolate', flt='lsearch_step_t::', **ls_common)
+    targets += [Target('lstep_interpolate', [itp, bis()], 'specs/C07/lstep.h', replace=['lstep_bisection']),
+                Target('lstep_bisection', [bis()], 'specs/C07/lstep.h'),
+                # lsearch_step_t(t, f, g): the constructor the stub nv_lstep_make3 stands for (the (state, descent, t) overload delegates to it)
+                Target('lstep_ctor3', [Fn('lstep_ctor3', 'src/solver/lstep.cpp', 'lsearch_step_t', flt='lsearch_step_t::lsearch_step_t', kinds=('CXXConstructorDecl',),
+                                          select=lambda d: len(astload.param_types(d)) == 3 and all('solver_state_t' not in t for t in astload.param_types(d)),
+                                          **dict(ls_common, self_struct='struct nv_lstep'))], 'specs/C07/lstep.h')]
+    import pred_smt
+    import step_smt
+    import adv_smt
+    # the three groups of SMT obligations are built concurrently (each runs clang on its own translation units)
+    from concurrent.futures import ThreadPoolExecutor
+    with ThreadPoolExecutor(max_workers=3) as ex:
+        parts = [f.result() for f in [ex.submit(pred_smt.build), ex.submit(step_smt.build), ex.submit(adv_smt.build)]]
+    vcs = [v for pv, _ in parts for v in pv]
+    fns = [f for _, pf in parts for f in pf]
     return {
-        'targets': targets, 'vcs': [],
-        'decided': ['backtrack / LeMarechal / Fletcher(+zoom): success => advertised predicates were evaluated true on the current trial point with the returned step, and the state is the valid evaluation at x0+t*d; loops terminate (variant max_iterations - i)'],
-        'not_decided': ['success on convex quadratics (needs the numerics of interpolation)', 'CG_DESCENT / More-Thuente bodies'],
+        'targets': targets, 'vcs': vcs, 'functions': fns,
+        'decided': ['backtrack / LeMarechal / Fletcher(+zoom): success => advertised predicates were evaluated true on the current trial point with the returned step, and the state is the valid evaluation at x0+t*d; loops terminate (variant max_iterations - i)',
+                    'acceptance predicates has_armijo / has_wolfe / has_strong_wolfe / has_approx_armijo / has_approx_wolfe / has_descent / dg equal the textbook formulas of the property over the reals (dot products opaque); has_descent (real body, IEEE comparisons) refuses a NaN slope and is the guard of lsearchk_t::get',
+                    'step sanity over the reals: lsearchk_t::get hands do_get a step > 0 (stpmin = 10 eps in (0,1], clamp, *0.3, *3); backtracking / LeMarechal / Fletcher / zoom: every std::clamp has lower <= upper and a lower bound > 0, the bracket invariants (0 <= L < t < R; 0 <= prev < curr = t; non-negative zoom bracket) are inductive, success => returned step > 0 and state evaluated at exactly that step',
+                    'lsearch_step_t::interpolate returns a finite value or else the bisection point 0.5*(u.t+v.t) for every mode; bisection and the (t, f, g) constructor equal their definitions',
+                    'More-Thuente do_get (+ dcstep): success => the state is the valid evaluation at the returned step, the value / slope read by the convergence test are those of the current trial state, <= max_iterations evaluations, the loop terminates; its convergence exit implies Armijo + strong Wolfe (over the reals)',
+                    'CG_DESCENT: interval_t constructor / updateA / updateB / done, make_params, move, updateU, update, bracket and the move_update_and_check_done lambda under protocol contracts (tentative state = evaluation at interval.step_size; done() true => criterion pair evaluated true on the tentative point or give-up; every evaluation but one per updateU / lambda call is paid by the shared budget); do_get composed from these contracts: success => state is the valid evaluation at the returned step, <= 7*max_iterations+1 evaluations, the loops terminate',
+                    'REFUTED on the unchanged library (genuine, natively replayed on f(x)=x^2): More-Thuente and CG_DESCENT report success at give-up exits where the advertised conditions do not hold (advertised/morethuente_do_get, advertised/cgdescent_do_get)'],
+        'not_decided': ['success on convex quadratics (needs the numerics of interpolation)',
+                        'More-Thuente: positivity of the returned step (the fallback `stp = stx` may hand back the origin; excluding it needs the numerics of dcstep) and which of the two interpolation stages is active (the stage switch only selects the arguments of dcstep: no protocol-level consequence)',
+                        'CG_DESCENT: positivity of the returned step (secant / theta-combination numerics)',
+                        'finiteness proper: over the reals every value is finite; overflow of 0.5*(u.t+v.t) and NaN bracket ends are outside the real model'],
         'assumptions': ['solver_state_t::update(x) makes the state the single evaluation at x (assumed contract)',
-                        'parameters lie in their registered domains (0<c1<c2<1, 1<=max_iterations<=10000, tau1>2, 0<safeguard<0.5)',
-                        'lsearch_step_t::interpolate returns an arbitrary double (havoc)'],
+                        'parameters lie in their registered domains (0<c1<c2<1, 1<=max_iterations<=10000, tau1>2, 0<safeguard<0.5, 0<tau2<tau3<=0.5, 0<delta<1, 0<theta<1, ro>1, 0<gamma<1, epsilon>0)',
+                        'lsearch_step_t::cubic / quadratic / secant return an arbitrary double (havoc); in the protocol targets of back end A lsearch_step_t::interpolate is an arbitrary double as well',
+                        'IEEE double treated as real in the pred/, steps/ and advertised/ obligations (back end B); std::isfinite is true there; machine epsilon = 2^-52; epsilon0 / epsilon1 are some positive constants',
+                        'Eigen dot product is an opaque symmetric real function of its two operands',
+                        'back end B uses the contracts of lsearchk_t::update, fletcher zoom, interval_t::done, bracket, move_update_and_check_done, make_params and the interval_t constructor in the form proved by back end A (restated as SMT in step_smt.py / adv_smt.py: the correspondence of the two statements is by inspection)',
+                        'More-Thuente over the reals: dcstep overwrites its eight by-reference results with arbitrary values (its real body is under the back-end-A target morethuente_do_get)',
+                        'the ghost records of the approximate predicates (nv_cgd) are not part of the frame of the virtual do_get contract used by lsearchk_t::get (they are specification-only objects)'],
         'trusted': [],
     }
 
@@ -57,6 +104,13 @@ def replay(rp):
     do_get) are driven on the real line searches by a scripted function; other targets have no native driver"""
     import replaylib
     out = {'reproduced': False, 'runs': []}
+    if rp['target'] == 'advertised':
+        # More-Thuente / CG_DESCENT report success at give-up exits: concrete runs of the real line searches on f(x) = x^2
+        exe = replaylib.build_with_library('replay/C07_adv_replay.cpp', 'C07_adv_replay')
+        rc, so, se = replaylib.run_driver(exe, [])
+        out['runs'].append({'exit': rc, 'output': so.strip()[:6000]})
+        out['reproduced'] = rc == 1
+        return out
     if rp['target'] != 'lsearchk_get':
         out['note'] = 'no scripted function for this target: the replay file carries the verifier output only'
         return out
